@@ -19,14 +19,14 @@ META = dict(
     stubs=['numpy -> engine/shims/np_shim.py', 'pickle -> engine/shims/pickle_shim.py (structural deep copy)',
            'parallel_utils.lazy_parallel_map / single_thread_prefetch -> serial contract (engine/shims/pool_shim.py); the real functions are C04-C07 (E2)',
            'rng -> engine.rt.Rng: solver-chosen permutation per shuffle call'],
-    assumptions=['example values, map offsets, filter thresholds, slice bounds, index-list entries are unbounded symbolic ints',
+    assumptions=['family opaque: concrete selection parameters, one or two solver-chosen positions hold a solver-chosen non-numeric example', 'example values, map offsets, filter thresholds, slice bounds, index-list entries are unbounded symbolic ints',
                  'pipelines containing sort are compared under "sort keys pairwise distinct" (ties: C18)',
                  'cycle is observed through islice on non-empty datasets',
                  'a composition the reference marks unsupported must be refused loudly (at construction or first use)'],
     bounds=dict(quick='source length n in 0..3, list- and dict-backed; every op of the alphabet at depth 1; depth 2: one representative per ordered pair of op classes '
                       '(list-backed n=2, dict-backed n=3); depth 3 complete over an 8-op core alphabet (n=3); shuffle over <= 3 and sort over <= 4 elements',
                 thorough='n in 0..3 depth 1 and depth 2 complete over the full alphabet; n = 4 depth 1; depth 3 over a seeded sample of shapes'),
-    outside=['depth > 3', 'n > 4', 'symbolic strings / float / numpy-array examples', 'real worker pools (C04)'],
+    outside=['depth > 3', 'n > 4', 'symbolic strings / float / numpy-array examples (non-numeric examples: None, 0, False, \'\', (), a key-like string at one or two positions, value-agnostic combinators, depth <= 2)', 'real worker pools (C04)'],
 )
 
 PARAMS = U.POOL_PARAMS
@@ -81,6 +81,87 @@ def body_cycle(backing, n, ops, *args):
     return got == want and got2 == want
 
 
+# ---- examples that are not numbers: None, falsy values, empty containers ------------------------------------------------------------
+NASTY = (None, 0, False, '', (), 'k0')
+OPAQUE_OPS = ('sl', 'idx', 'nparr', 'keys', 'cat_self', 'cat_b', 'isp_b', 'isp_self', 'isp3', 'zip_b', 'zip_self', 'zip1', 'batch', 'items', 'tile', 'shuffle',
+              'sort_nokey', 'split', 'shard', 'cache', 'ecache', 'catch', 'copy', 'fcopy', 'pf1', 'pfw', 'cat0', 'isp0')
+OPAQUE_CORE = [('sl', 'm1'), ('idx', 2), ('cat_self',), ('isp_b',), ('zip_b',), ('batch', 2, False), ('batch', 2, True), ('items',), ('tile', 2), ('shuffle',),
+               ('cache',), ('ecache',), ('catch',), ('fcopy',), ('pf1', 2), ('pfw', 2, 2), ('split', 2, 1)]
+
+
+def _same(a, b):
+    """equality that does not confuse 0, False and ''-like values: same type, same structure"""
+    if type(a) is not type(b):
+        return False
+    if isinstance(a, (list, tuple)):
+        return len(a) == len(b) and all(_same(x, y) for x, y in zip(a, b))
+    return a == b
+
+
+def body_opaque(backing, n, ops, j1, j2, k):
+    """the combinators that do not look at the examples (selection, combination, batching, caching, prefetching, copying) treat them as
+    opaque: an example that is None, 0, False, '', () or a string equal to a key - at one or two solver-chosen positions - is passed
+    through like any other (a pipeline must never use an example value as an in-band marker)"""
+    rt.assume(0 <= j1 < max(n, 1))
+    rt.assume(0 <= j2 < max(n, 1))
+    rt.assume(0 <= k < len(NASTY))
+    xs = [100 + i for i in range(U.NX)]
+    for i in range(n):
+        if i == j1 or i == j2:
+            for kk in range(len(NASTY)):
+                if k == kk:
+                    xs[i] = NASTY[kk]
+    ys = [None, 7, '']
+    qs = [1, 5, 0, 2, 1, 0, 3, 1]
+    try:
+        b = U.build(backing, n, ops, xs, ys, qs, [0] * U.NR)
+    except U.Refusal:
+        rt.reached()
+        return True
+    ds, ref = b.ds, b.ref
+    if not ref.iter_ok:
+        try:
+            got = list(ds)
+        except U.REFUSALS:
+            rt.reached()
+            return True
+        rt.reached()
+        return got == []
+    l1 = list(ds)
+    l2 = list(ds)
+    rt.reached()
+    if not (_same(l1, list(ref.vals)) and _same(l2, list(ref.vals))):
+        return False
+    if ref.has_len and len(ds) != len(ref.vals):
+        return False
+    if ref.indexable and ref.has_len and not any(o[0] == 'items' for o in ops):      # (integer indexing of items() over duplicate keys: known finding of C02)
+        for i in range(len(ref.vals)):
+            if not _same(ds[i], ref.vals[i]):
+                return False
+    if len(ops) == 1 and ops[0][0] == 'batch':
+        # batch(b).unbatch() is the identity (C16) also for such examples
+        if not ops[0][2] and not _same(list(ds.unbatch()), [v for bt in ref.vals for v in bt]):
+            return False
+    return True
+
+
+def opaque_conditions(tier, seed):
+    out = []
+    for backing in ('list', 'dict'):
+        for n in ((2, 3) if tier == 'quick' else (1, 2, 3, 4)):
+            for op in U.ALPHABET:
+                if op[0] in OPAQUE_OPS and U.valid_program(n, (op,), 3):
+                    out.append((backing, n, (op,)))
+        if tier == 'quick' and backing == 'list':
+            continue            # quick: depth 2 on the dict backing only (it also exercises the key paths)
+        for a in (OPAQUE_CORE if tier == 'quick' else [o for o in U.ALPHABET if o[0] in OPAQUE_OPS]):
+            for bb in OPAQUE_CORE:
+                for n in ((3,) if tier == 'quick' else (2, 3)):
+                    if U.valid_program(n, (a, bb), 3):
+                        out.append((backing, n, (a, bb)))
+    return out
+
+
 def conditions(tier, seed):
     out = []
     seen = set()
@@ -132,6 +213,8 @@ def cycle_conditions(tier, seed):
 
 
 FAMILIES = [
+    Family('opaque', body_opaque, ['backing', 'n', 'ops'], [('j1', 'int'), ('j2', 'int'), ('k', 'int')], opaque_conditions, timeout=dict(quick=150, thorough=300),
+           desc='value-agnostic combinators pass None / falsy / empty / key-like examples through unchanged (iteration twice, len, indexing, batch-unbatch)'),
     Family('iter', body_iter, ['backing', 'n', 'ops'], PARAMS, conditions, timeout=dict(quick=150, thorough=300),
            desc='list(ds) twice equals the eager reference (or the composition is refused where the reference says so)'),
     Family('cycle', body_cycle, ['backing', 'n', 'ops'], PARAMS, cycle_conditions, timeout=dict(quick=150, thorough=300),
